@@ -78,6 +78,8 @@ theorem SRel.extLeft {σ σ1 σ' : State N} (h : SRel Q cx β σ σ') (hx : StEx
   pinR := h.pinR
   pinT := h.pinT
   pinC := h.pinC
+  pinTl := fun p hp => ⟨hx.tables _ _ (h.pinTl p hp).1, (h.pinTl p hp).2⟩
+  pinCl := fun p hp => ⟨hx.cells _ _ (h.pinCl p hp).1, (h.pinCl p hp).2⟩
   inv := h.inv_step (Inj.ext.refl β) (Frame.ofGrow hx.cells (fun _ _ e => e) hx.tables (fun _ _ e => e) hx.closures (fun _ _ e => e))
 
 theorem SRel.extRight {σ σ' σ1' : State N} (h : SRel Q cx β σ σ') (hx : StExt σ' σ1') : SRel Q cx β σ σ1' where
@@ -95,6 +97,8 @@ theorem SRel.extRight {σ σ' σ1' : State N} (h : SRel Q cx β σ σ') (hx : St
   pinR := fun p hp => ⟨hx.closures _ _ (h.pinR p hp).1, (h.pinR p hp).2⟩
   pinT := fun p hp => ⟨hx.tables _ _ (h.pinT p hp).1, (h.pinT p hp).2⟩
   pinC := fun p hp => ⟨hx.cells _ _ (h.pinC p hp).1, (h.pinC p hp).2⟩
+  pinTl := h.pinTl
+  pinCl := h.pinCl
   inv := h.inv_step (Inj.ext.refl β) (Frame.ofGrow (fun _ _ e => e) hx.cells (fun _ _ e => e) hx.tables (fun _ _ e => e) hx.closures)
 
 /-- evaluating `e` succeeds in every context and only allocates -/
